@@ -153,6 +153,23 @@ def check_bounded_read_loop(R, f, rid_prefix, loop, counter, buff_names, require
                      key_extra='yield-guarded')
 
 
+def check_reader_premise(P, R, rid, why):
+    """The Content-Length reader hands on every byte of the declared body whatever the stream's read fragmentation (clauses a/b/c of C04 on
+    `_iter_body`), reported under another property's rule id: properties about what is parsed from the body borrow this premise."""
+    from ..report import Sub
+    f = P.func(f'{BM}:_iter_body')
+    S = Sub(R, prefix_map={'C04.': rid}, why=why)
+    loops = [n for n in walk_shallow(f.node) if isinstance(n, ast.While)]
+    loops = [l for l in loops if any(T.in_body_of(c, l) for c in read_param_calls(f))]
+    for loop in loops:
+        counter = T.counter_of_while(loop)
+        cu = T.countup_of_while(loop) if counter is None else None
+        if cu is not None:
+            check_bounded_read_loop(S, f, 'C04.', loop, ('up', cu[0], cu[1]), buff_names={'buff_size'})
+        elif counter is not None:
+            check_bounded_read_loop(S, f, 'C04.', loop, counter, buff_names={'buff_size'})
+
+
 def check(P, R):
     R.rule('C04.a', 'bounded request: read(min(remaining, buffer)) under remaining > 0', floor=1)
     R.rule('C04.b', 'received-length accounting, siblings agree', floor=3)
@@ -263,6 +280,13 @@ def check_body_read(P, R):
              f'_body_read calls the stream itself (`{short(c)}`): a single read(n) may return fewer than n bytes, so the body is truncated to the '
              f'first fragment whenever the stream does a short read; only the bounded loops of _iter_body / _iter_chunked may read',
              why='the body is byte-exact under any read fragmentation')
+    # the part loop runs until the reader is exhausted: leaving it early presents a truncated body as complete
+    for n_ in g.nodes:
+        if n_.kind == 'stmt' and isinstance(n_.ast, (ast.Break, ast.Return)) and T._inside(n_.ast, loop.body) and T.loops_of(n_.ast) \
+                and T.loops_of(n_.ast)[0] is loop:
+            R.ob('C04.d', f, n_.ast, False, text=f'`{short(n_.ast)}` inside the part loop', detail=
+                 f'the accumulation loop is left by `{short(n_.ast)}` before the reader is exhausted: the bytes not yet read are missing from the body the '
+                 f'application sees (and stay in the stream)', why='the body equals the first Content-Length bytes of the stream', key_extra='early-exit')
     # name of the buffer: the object the parts are written to
     wr = [c for st in loop.body for c in walk_shallow(st) if isinstance(c, ast.Call) and call_attr(c) == 'write' and c.args
           and isinstance(c.args[0], ast.Name) and c.args[0].id == part and isinstance(c.func.value, ast.Name)]
